@@ -1,8 +1,10 @@
+from .. import smt_units
+
 PROP = {
     "kani_groups": ["hk_otlp"],
-    "smt": [],
+    "smt": [smt_units.unit_otlp_dispatch],
     "technique": "bounded model checking (Kani/CBMC) of the three OTLP event encoders' accept/decline decision over symbolic events",
-    "functions": [],
+    "functions": ['E2-cfg (mir2smt/cfgabs.py): <OtlpInner as Emitter>::emit dispatch: exactly one send or one discard per event, through the first configured and accepting signal in the order metrics, traces, logs (presence of signals and encoder answers are free booleans)'],
     "bounds": "",
     "outside": "",
     "stubs": [],
